@@ -3,10 +3,20 @@ use crate::gen_enums::*;
 use crate::parse::Tk;
 use scad_tree::prelude::*;
 
+thread_local! { static PLAIN: std::cell::Cell<bool> = std::cell::Cell::new(false); }
 fn n(t: &mut Tk) -> f64 {
     let x = t.f();
-    let _ = t.tok(); // display text
+    if !PLAIN.with(|p| p.get()) {
+        let _ = t.tok(); // display text
+    }
     x
+}
+/// parse a dump written without display texts
+pub fn tree_plain(t: &mut Tk) -> Scad {
+    PLAIN.with(|p| p.set(true));
+    let r = tree(t);
+    PLAIN.with(|p| p.set(false));
+    r
 }
 fn on(t: &mut Tk) -> Option<f64> {
     if t.tok() == "o+" { Some(n(t)) } else { None }
